@@ -8,6 +8,7 @@ append them to ctx.history - so a witness history replays exactly.
 import re
 
 from . import obs as O
+from .monitor import StepBudgetExceeded
 
 ESC = '\x1b'
 
@@ -288,7 +289,7 @@ class Exec:
                     res = repr(recv)
                 else:
                     res = getattr(recv, m)(*a, **k)
-        except Exception as e:  # the monitors have already seen it
+        except (Exception, StepBudgetExceeded) as e:  # the monitors have already seen it
             op['raised'] = type(e).__name__
             return None, e
         self.pool_result(res, op)
